@@ -77,7 +77,19 @@ func searchCase(c *fw.Ctx, r *rand.Rand, i int, budget float64, maxDepth int) (r
 			root = searchRoot{h, "stalemate-root"}
 		}
 	}
+	crowded := false
+	if i%23 == 5 {
+		if p, found := gen.Crowded(r); found {
+			root, crowded = searchRoot{gen.Hist{Start: p}, "crowded"}, true
+		}
+	}
 	cfg = searchCfgs[r.Intn(len(searchCfgs))]
+	if crowded {
+		// more than 128 moves at the root: static leaves, depth 1 or 2
+		cfg = searchCfgs[r.Intn(2)]
+		c.Count("crowded_roots", 1)
+		return root, cfg, 1 + r.Intn(2), true
+	}
 	if root.tag == "stalemate-resource" {
 		cfg = searchCfgs[[]int{2, 3, 4, 0}[r.Intn(4)]] // quiescence leaves mostly: the stalemate is met at or below the horizon
 	}
@@ -136,6 +148,12 @@ func searchCase(c *fw.Ctx, r *rand.Rand, i int, budget float64, maxDepth int) (r
 // changes the explored set, hence the minimax value).
 func moveListCase(c *fw.Ctx, r *rand.Rand) {
 	p := randomHist(r, 60).Final()
+	if r.Intn(6) == 0 {
+		if q, found := gen.Crowded(r); found {
+			p = q
+			c.Count("movelists_over_128_moves", 1)
+		}
+	}
 	pos, err := adapt.Position(p)
 	if err != nil {
 		return
@@ -754,7 +772,7 @@ func init() {
 			return mkCases(l, "movelist", 8, seed, pick(tier, 300, 20000))
 		},
 		Floors: func(string) map[string]int64 {
-			return map[string]int64{"drawn_arrival_searches": 200, "quiet_leaf_on_drawish_root": 100, "clock100_below_horizon": 20, "clock99_quiet_mate_roots": 20, "searches": 1500, "root_mate_for_ge3": 20, "root_mate_against_ge2": 5, "draw_inside_tree": 100, "stalemate_inside_tree": 50, "selective_pruned": 100, "drawn_root": 5, "moveless_root": 10, "movelists": 2000}
+			return map[string]int64{"drawn_arrival_searches": 200, "quiet_leaf_on_drawish_root": 100, "clock100_below_horizon": 20, "clock99_quiet_mate_roots": 20, "searches": 1500, "root_mate_for_ge3": 20, "root_mate_against_ge2": 5, "draw_inside_tree": 100, "stalemate_inside_tree": 50, "selective_pruned": 100, "drawn_root": 5, "moveless_root": 10, "movelists": 2000, "movelists_over_128_moves": 100, "crowded_roots": 50}
 		},
 		Run: runC03,
 	})
